@@ -164,6 +164,15 @@ class AddMonitor(Monitor):
     def pre(self, fn, args, kwargs):
         conv = args[0]
         mon = f"{self.name}:{fn}"
+        if S.depth > 0:
+            # a registration made by the library itself (chain -> add_record, add_prefix -> add_record) on a large
+            # converter: the hook costs O(n) and chain makes n such calls; only the outermost calls are judged there
+            try:
+                if len(conv.records) > 48:
+                    out_of_domain(mon, "nested-call-on-a-large-converter")
+                    return None
+            except Exception:  # noqa: BLE001
+                pass
         sp = domain_spec(conv, mon)
         if sp is None:
             return None
